@@ -291,8 +291,27 @@ def run_one(mod, ctx, case):
         try:
             ctx.samples.append(_jsonable(mod.describe(case)))
         except Exception:
-            pass
+            ctx.samples.append(_generic_describe(case))
+    elif not hasattr(mod, "describe") and len(ctx.samples) < 2:
+        ctx.samples.append(_generic_describe(case))
     return violations
+
+
+def _generic_describe(case, depth=0):
+    """fallback rendering of a case for the evidence samples"""
+    import numpy as np
+    import tskit
+
+    if isinstance(case, tskit.TreeSequence):
+        return dict(nodes=int(case.num_nodes), edges=int(case.num_edges), trees=int(case.num_trees),
+                    sites=int(case.num_sites), mutations=int(case.num_mutations), L=float(case.sequence_length))
+    if isinstance(case, dict) and depth < 3:
+        return {str(k): _generic_describe(v, depth + 1) for k, v in list(case.items())[:20]}
+    if isinstance(case, (list, tuple)) and depth < 3:
+        return [_generic_describe(v, depth + 1) for v in list(case)[:8]]
+    if isinstance(case, np.ndarray):
+        return f"ndarray{case.shape} {case.dtype}"
+    return _jsonable(case) if isinstance(case, (int, float, str, bool, type(None), np.generic)) else repr(case)[:80]
 
 
 def generation_pass(mod, ctx, n, seed):
